@@ -71,3 +71,54 @@ pub fn main(args: &[String]) -> i32 {
     }
     0
 }
+
+
+/// seeded long schedules (direction B): random permutations and block-structured orders around the word boundaries
+pub fn main_fuzz(args: &[String]) -> i32 {
+    use rand::rngs::StdRng;
+    use rand::seq::{IndexedRandom, SliceRandom};
+    use rand::{Rng, SeedableRng};
+    let o = Opts::parse(args);
+    let n_cases = o.num("n", 200);
+    let mut rng = StdRng::seed_from_u64(crate::util::seed().wrapping_mul(0x9E3779B97F4A7C15).wrapping_add(4242 + o.num("stream", 0)));
+    let mut out = std::io::BufWriter::new(std::io::stdout().lock());
+    for _ in 0..n_cases {
+        let n = *[9usize, 33, 64, 65, 66, 127, 128, 129, 130, 191, 192, 193, 200].choose(&mut rng).unwrap();
+        let nops = n - 1;
+        let mut order: Vec<usize> = (0..nops).collect();
+        match rng.random_range(0..5) {
+            0 => order.shuffle(&mut rng),
+            1 => {
+                // a few operators next to the word boundaries first, the rest left to right
+                let mut first: Vec<usize> = (0..nops).filter(|i| [62usize, 63, 0, 1].contains(&(i % 64)) && rng.random_bool(0.6)).collect();
+                first.shuffle(&mut rng);
+                let rest: Vec<usize> = (0..nops).filter(|i| !first.contains(i)).collect();
+                order = first.into_iter().chain(rest).collect();
+            }
+            2 => {
+                // shuffled blocks of 8, left to right inside a block
+                let mut blocks: Vec<Vec<usize>> = order.chunks(8).map(|c| c.to_vec()).collect();
+                blocks.shuffle(&mut rng);
+                order = blocks.into_iter().flatten().collect();
+            }
+            3 => {
+                // right to left with random local swaps
+                order.reverse();
+                for _ in 0..nops / 3 {
+                    let i = rng.random_range(0..nops.max(2) - 1);
+                    order.swap(i, i + 1);
+                }
+            }
+            _ => {
+                // even positions first (random), then odd positions (random)
+                let mut ev: Vec<usize> = (0..nops).filter(|i| i % 2 == 0).collect();
+                let mut od: Vec<usize> = (0..nops).filter(|i| i % 2 == 1).collect();
+                ev.shuffle(&mut rng);
+                od.shuffle(&mut rng);
+                order = ev.into_iter().chain(od).collect();
+            }
+        }
+        let _ = writeln!(out, "{}", json!({"n": n, "base": 0, "order": order}));
+    }
+    0
+}
